@@ -3,6 +3,7 @@ import random
 from props.gossip_common import *
 
 ID = "C17"
+COQ_TARGETS = ["Run/Run_Gossip.vo"]
 META = {
     "text": "Theorems (Properties/C17.v) over the Gallina model of UpsertLocal/DeleteLocal/LeaveLocal/CompactLocal: for every op list the live entries equal a last-write-wins map, an effective change takes exactly one fresh version and no-ops none, compaction keeps every live key/value in order and drops every tombstone. The model is tied to pkg/gossip/state.go by replaying generated op scripts on the real clusterState and on the model (inside Coq) after every op.",
     "note": "Trusted: Coq kernel+VM, the hand-written model, the Go harness/translation; versions modelled unbounded; CompactLocal threshold >= 1.",
